@@ -197,7 +197,45 @@ class TransformError(Exception):
     pass
 
 
+def real_nest(kind, sf, main, params):
+    from loki.ir import FindNodes, Loop
+    from loki.transformations import transform_loop as tl
+    r = [x for x in sf.all_subroutines if x.name.lower() == main][0]
+    if kind in ('fusion', 'fusion-o'):
+        tl.do_loop_fusion(r)
+    elif kind in ('fission', 'fission-o'):
+        tl.do_loop_fission(r, promote=True, warn_loop_carries=True)
+    elif kind == 'interchange':
+        tl.do_loop_interchange(r)
+    elif kind == 'block':
+        from loki.transformations.loop_blocking import split_loop
+        idx, bs = params
+        loops = FindNodes(Loop).visit(r.body)
+        split_loop(r, loops[idx % len(loops)], bs)
+    else:
+        raise ValueError(kind)
+
+
+_cache = {}
+
+
 def real_apply(kind, prog, params=()):
+    """memoised (impl and oracle see the same request)"""
+    key = (kind, dumps(prog), tuple(params))
+    if key not in _cache:
+        if len(_cache) > 64:
+            _cache.clear()
+        try:
+            _cache[key] = ('ok', _real_apply(kind, prog, params))
+        except (TransformError, fir.Unsupported) as e:
+            _cache[key] = ('exc', e)
+    tag, val = _cache[key]
+    if tag == 'exc':
+        raise val
+    return val
+
+
+def _real_apply(kind, prog, params=()):
     """apply the real transformation to the program; returns (transformed program in wire form, fgen text).
     Errors of the harness printer / the frontend propagate; errors of the transformation, of fgen or of the export of the
     transformed IR are raised as TransformError."""
@@ -211,7 +249,7 @@ def real_apply(kind, prog, params=()):
         if kind == 'unroll':
             real_unroll(sf)
         else:
-            raise ValueError(kind)
+            real_nest(kind, sf, str(prog[1]), params)
         tp = fir.export_unit(sf, main=fir.prog_main(prog))
         return tp, fgen(sf.ir)
     except fir.Unsupported:
@@ -238,6 +276,238 @@ def add_unroll_pragmas(rng, prog, p=0.7):
     return fir.map_program(prog, fs=fs)
 
 
+# ---- loop nests whose legality is known by construction: every statement in a marked loop is "element-wise": it writes
+# a?(i) / c1(i, j) and reads only elements with the same subscripts, the loop variables, literals and the scalar k1, which no
+# loop writes; scalars written between loops (s1) are not used inside loops
+
+def _V(x):
+    return [A('v'), A(x)]
+
+
+def _I(n):
+    return fir.ilit(n)
+
+
+def _elem_expr(rng, idx, arrays, depth=2):
+    r = rng.random()
+    if depth == 0 or r < 0.35:
+        c = rng.random()
+        if c < 0.5:
+            return [A('idx'), A(rng.choice(arrays))] + [_V(i) for i in idx[:1]]
+        if c < 0.7:
+            return _V(rng.choice(idx))
+        if c < 0.85:
+            return _V('k1')
+        return _I(rng.randint(-3, 5))
+    op = rng.choice(('add', 'sub', 'mul', 'add'))
+    return [A('bin'), A(op), _elem_expr(rng, idx, arrays, depth - 1), _elem_expr(rng, idx, arrays, depth - 1)]
+
+
+def _elem_stmt(rng, i, arrays):
+    t = rng.choice(arrays)
+    return [A('assign'), [A('idx'), A(t), _V(i)], [A('call'), A('mod'), _elem_expr(rng, [i], arrays), _I(97)]]
+
+
+def _elem_stmt2(rng, i, j):
+    e = [A('bin'), A(rng.choice(('add', 'sub', 'mul'))), [A('idx'), A('c1'), _V(i), _V(j)],
+         [A('bin'), A('add'), [A('bin'), A('mul'), _V(i), _I(rng.randint(1, 9))], _V(j)]]
+    if rng.random() < 0.5:
+        e = [A('bin'), A('add'), e, _V('k1')]
+    return [A('assign'), [A('idx'), A('c1'), _V(i), _V(j)], [A('call'), A('mod'), e, _I(97)]]
+
+
+def _pragma(t):
+    return [A('nop'), A('pragma'), t]
+
+
+def _nest_unit(rng, body, sym, ext):
+    hi = _V('n') if sym else _I(ext)
+    decls = []
+    args = []
+    if sym:
+        decls.append([A('decl'), A('n'), A('int'), A('in'), [], fir.NONE])
+        args.append(A('n'))
+    decls.append([A('decl'), A('k1'), A('int'), A('in'), [], fir.NONE])
+    decls.append([A('decl'), A('s1'), A('int'), A('inout'), [], fir.NONE])
+    args += [A('k1'), A('s1')]
+    for a in ('a1', 'a2', 'a3'):
+        decls.append([A('decl'), A(a), A('int'), A('inout'), [[_I(1), hi]], fir.NONE])
+        args.append(A(a))
+    decls.append([A('decl'), A('c1'), A('int'), A('inout'), [[_I(1), hi], [_I(1), _I(3)]], fir.NONE])
+    args.append(A('c1'))
+    for x in ('i1', 'i2', 't1'):
+        decls.append([A('decl'), A(x), A('int'), A('none'), [], fir.NONE])
+    return fir.canon([A('program'), A('kernel'), [A('unit'), A('kernel'), args, decls, body]])
+
+
+def gen_nest(rng, kind):
+    """(program, params) for kind in fusion | fusion-o | fission | fission-o | interchange | block"""
+    sym = rng.random() < 0.6
+    ext = rng.randint(2, 5)
+    hi = _V('n') if sym else _I(ext)
+    arrays = ['a1', 'a2', 'a3']
+    between = lambda: [A('assign'), _V('s1'), [A('bin'), A('add'), _V('s1'), _V('k1')]]
+    body = []
+    params = []
+    if rng.random() < 0.5:
+        body.append(between())
+    if kind in ('fusion', 'fusion-o'):
+        ngroups = rng.choice((1, 1, 2))
+        plan = []
+        for g in range(ngroups):
+            for _ in range(rng.randint(2, 3)):
+                plan.append(g)
+        if ngroups == 2:
+            rng.shuffle(plan)
+        names = ['default', 'g1']
+        for g in plan:
+            v = rng.choice(('i1', 'i1', 'i2'))
+            lo, up = _I(1), hi
+            if kind == 'fusion-o' and rng.random() < 0.6:
+                if rng.random() < 0.5:
+                    lo = _I(2) if sym or ext >= 2 else _I(1)
+                else:
+                    up = [A('bin'), A('sub'), _V('n'), _I(1)] if sym else _I(max(1, ext - 1))
+            text = 'loki loop-fusion' if names[g] == 'default' and rng.random() < 0.5 else f'loki loop-fusion group({names[g]})'
+            if rng.random() < 0.2:
+                body.append(_pragma('omp simd'))
+            body.append(_pragma(text))
+            # loops of different groups may be interleaved: hoisting is legal because the groups use disjoint arrays
+            garr = arrays if ngroups == 1 else (['a1', 'a2'] if g == 0 else ['a3'])
+            body.append([A('do'), A(v), lo, up, fir.NONE, [_elem_stmt(rng, v, garr) for _ in range(rng.randint(1, 3))]])
+            if rng.random() < 0.4:
+                body.append(between())
+    elif kind in ('fission', 'fission-o'):
+        for _ in range(rng.randint(1, 2)):
+            v = rng.choice(('i1', 'i2'))
+            lb = []
+            nseg = rng.randint(2, 3)
+            for k in range(nseg):
+                if k:
+                    lb.append(_pragma('loki loop-fission'))
+                if kind == 'fission-o' and k == 0 and rng.random() < 0.7:
+                    # a scalar written before the fission point and read after it: promoted by the transformation
+                    lb.append([A('assign'), _V('t1'), [A('bin'), A('add'), [A('idx'), A('a1'), _V(v)], _V(v)]])
+                    lb.append(_pragma('loki loop-fission'))
+                    lb.append([A('assign'), [A('idx'), A('a2'), _V(v)], [A('call'), A('mod'), [A('bin'), A('mul'), _V('t1'), _I(2)], _I(97)]])
+                else:
+                    lb += [_elem_stmt(rng, v, arrays) for _ in range(rng.randint(1, 2))]
+            step = rng.choice((fir.NONE, fir.NONE, _I(1), _I(2))) if kind == 'fission' else fir.NONE
+            body.append([A('do'), A(v), _I(1), hi, step, lb])
+            if rng.random() < 0.4:
+                body.append(between())
+    elif kind == 'interchange':
+        for _ in range(rng.randint(1, 2)):
+            if rng.random() < 0.3:
+                body.append(_pragma('omp simd'))
+            body.append(_pragma('loki loop-interchange'))
+            inner = [A('do'), A('i2'), _I(1), _I(3), rng.choice((fir.NONE, fir.NONE, _I(2))),
+                     [_elem_stmt2(rng, 'i1', 'i2') for _ in range(rng.randint(1, 2))]]
+            body.append([A('do'), A('i1'), _I(1), hi, fir.NONE, [inner]])
+    elif kind == 'block':
+        lo = rng.choice((1, 1, 2))
+        step = rng.choice((None, None, 1, 2, -1, -2))
+        lb = [_elem_stmt(rng, 'i1', arrays) for _ in range(rng.randint(1, 2))]
+        lb.append([A('assign'), _V('s1'), [A('call'), A('mod'), [A('bin'), A('add'), [A('bin'), A('mul'), _V('s1'), _I(3)],
+                                                                   [A('idx'), A('a1'), _V('i1')]], _I(97)]])
+        a, b = (_I(lo), hi) if step is None or step > 0 else (hi, _I(lo))
+        body.append([A('do'), A('i1'), a, b, fir.NONE if step is None else _I(step), lb])
+        body.append([A('do'), A('i2'), _I(1), hi, fir.NONE, [_elem_stmt(rng, 'i2', arrays)]])
+        params = [rng.randint(0, 1), rng.randint(1, 4)]
+    body.append(between())
+    return _nest_unit(rng, body, sym, ext), params
+
+
+def top_groups(stmts):
+    """(pragma texts directly in front, statement) pairs of a statement list (Lean: groups)"""
+    out, pend = [], []
+    for s in stmts:
+        if is_pragma(s):
+            pend.append(str(s[2]))
+        else:
+            out.append((pend, s))
+            pend = []
+    return out
+
+
+def fusion_simple(stmts):
+    """Lean: fusionSimple"""
+    fl = []
+    for pr, s in top_groups(stmts):
+        ts = [t for t in pr if t.startswith('loki loop-fusion')]
+        if h(s) == 'do' and ts:
+            m = re.match(r'loki loop-fusion\s*group\((.*)\)$', ts[0].strip())
+            fl.append((m.group(1) if m else 'default', s))
+    for g, a in fl:
+        if str(a[4]) != 'none':
+            return False
+        for g2, b in fl:
+            if g == g2 and (dumps(a[2]) != dumps(b[2]) or dumps(a[3]) != dumps(b[3])):
+                return False
+    return True
+
+
+def fission_simple(stmts):
+    """Lean: fissionSimple"""
+    for s in stmts:
+        if h(s) == 'do':
+            body = s[5]
+            if any(is_pragma(t) and str(t[2]).startswith('loki loop-fission') for t in body) and \
+                    any(h(t) == 'assign' and h(t[1]) == 'v' for t in body):
+                return False
+    return True
+
+
+def known_fission_promote(stmts):
+    """Lean: KnownFissionPromote — a scalar is assigned in split loops over two different loop variables"""
+    seen = {}
+    for s in stmts:
+        if h(s) == 'do' and any(is_pragma(t) and str(t[2]).startswith('loki loop-fission') for t in s[5]):
+            for t in s[5]:
+                if h(t) == 'assign' and h(t[1]) == 'v':
+                    seen.setdefault(str(t[1][1]), set()).add(str(s[1]))
+    return any(len(v) > 1 for v in seen.values())
+
+
+def _tdiv(a, b):
+    q = abs(a) // abs(b)
+    return q if (a >= 0) == (b >= 0) else -q
+
+
+def _bound_val(e, env):
+    if h(e) == 'i':
+        return int(str(e[1]))
+    if h(e) == 'neg':
+        return -_bound_val(e[1], env)
+    if h(e) == 'v':
+        return env[str(e[1])]
+    raise ValueError('bound form')
+
+
+def known_block_zero_trip(prog, inputs, idx):
+    """Lean: KnownBlockZeroTrip — the loop to be blocked has a step s with |s| >= 2 and, for one of the input sets, does not
+    execute at all although `num_iterations` = (hi - lo)/s + 1 (truncating division) is positive"""
+    loops = [s for s in fir.iter_stmts(main_body(prog)) if h(s) == 'do']
+    if not loops:
+        return False
+    l = loops[idx % len(loops)]
+    if str(l[4]) == 'none':
+        return False
+    for inp in inputs:
+        env = {str(r[0]): int(str(r[1][1])) for r in inp if len(r) == 2 and h(r[1]) == 'i'}
+        try:
+            lo, hi, st = _bound_val(l[2], env), _bound_val(l[3], env), _bound_val(l[4], env)
+        except (ValueError, KeyError):
+            return False
+        if st != 0 and max(0, _tdiv(hi - lo + st, st)) == 0 and _tdiv(hi - lo, st) + 1 > 0:
+            return True
+    return False
+
+
+def main_body(prog):
+    return fir.find_unit(prog, fir.prog_main(prog))[4]
+
+
 def decode(req):
     kind = str(req[0])
     prog = req[1]
@@ -253,10 +523,17 @@ def decode(req):
     return kind, prog, inputs, flag
 
 
+def req_params(req):
+    ps = [int(str(x)) for x in req[4:]]
+    if len(ps) != (2 if str(req[0]) == 'block' else 0):
+        raise ValueError('malformed request parameters')
+    return ps
+
+
 class C31(Prop):
     id = 'C31'
     title = 'Loop transformations preserve behaviour where they apply'
-    model_modules = ['LokiModel.C31.Model', 'LokiModel.C31.Enc']
+    model_modules = ['LokiModel.C31.Model', 'LokiModel.C31.Enc', 'LokiModel.C31.Nest']
     props_module = 'LokiModel.Props.C31'
     findings_module = 'LokiModel.Findings.C31'
     driver = 'Drivers/C31.lean'
@@ -272,7 +549,8 @@ class C31(Prop):
     extra_obligations = ['oracle: original vs really transformed program on generated inputs']
 
     def classes(self):
-        return ['unroll-exit-cycle', 'unroll-print-text', 'unroll-associate-body', 'unroll-loopvar-live']
+        return ['unroll-exit-cycle', 'unroll-print-text', 'unroll-associate-body', 'unroll-loopvar-live',
+                'fission-promote-two-loopvars', 'block-zero-trip-step']
 
     # ---- generation
     def gen(self, rng, tier):
@@ -284,6 +562,13 @@ class C31(Prop):
             gf = tier == 'thorough' and j % 4 == 0
             yield Case([A('unroll'), prog, inputs, A('gf' if gf else 'nogf')], stream='unroll',
                        nontrivial=any(True for u in units(prog) for _ in unroll_candidates(u[4])))
+        n_nest = {'quick': 8, 'thorough': 60, 'search': 25}.get(tier, 8)
+        for kind in ('fusion', 'fusion-o', 'fission', 'fission-o', 'interchange', 'block'):
+            for j in range(n_nest):
+                prog, params = gen_nest(rng, kind)
+                inputs = fir.gen_inputs(rng, prog, n_in)
+                gf = tier == 'thorough' and j % 4 == 0
+                yield Case([A(kind), prog, inputs, A('gf' if gf else 'nogf')] + params, stream=kind)
 
     # ---- real code
     def impl(self, req):
@@ -291,8 +576,14 @@ class C31(Prop):
         cs = self.classes_of(kind, prog)
         if 'unroll-associate-body' in cs:
             return [A('result'), [A(c) for c in cs], A('excluded')]
+        if kind == 'block':
+            return [A('result'), [], A('oracle-only')]
+        if kind in ('fusion-o', 'fission-o'):
+            return [A('result'), [A(c) for c in cs], A('oracle-only')]
+        if (kind == 'fusion' and not fusion_simple(main_body(prog))) or (kind == 'fission' and not fission_simple(main_body(prog))):
+            return [A('result'), [], A('excluded')]
         try:
-            tp, _ = real_apply(kind, prog)
+            tp, _ = real_apply(kind, prog, req_params(req))
         except fir.Unsupported as e:
             return [A('unsupported'), str(e.kind)]
         return [A('result'), [A(c) for c in cs], norm_prog(tp)]
@@ -303,24 +594,28 @@ class C31(Prop):
         return resp
 
     # ---- direct oracle
-    def classes_of(self, kind, prog):
+    def classes_of(self, kind, prog, req=None):
         out = []
+        if kind == 'block' and req is not None and known_block_zero_trip(prog, req[2], req_params(req)[0]):
+            out.append('block-zero-trip-step')
         if kind == 'unroll':
             for name, pred in (('unroll-exit-cycle', known_unroll_escape), ('unroll-print-text', known_unroll_print),
                                ('unroll-associate-body', known_unroll_assoc), ('unroll-loopvar-live', known_unroll_live)):
                 if pred(prog):
                     out.append(name)
+        if kind == 'fission-o' and known_fission_promote(main_body(prog)):
+            out.append('fission-promote-two-loopvars')
         return out
 
-    def classify(self, kind, prog):
-        cs = self.classes_of(kind, prog)
+    def classify(self, kind, prog, req=None):
+        cs = self.classes_of(kind, prog, req)
         return cs[0] if cs else None
 
     def oracle(self, req):
         kind, prog, inputs, flag = decode(req)
-        cls = self.classify(kind, prog)
+        cls = self.classify(kind, prog, req)
         try:
-            tp, text = real_apply(kind, prog)
+            tp, text = real_apply(kind, prog, req_params(req))
         except (TransformError, fir.Unsupported) as e:
             return [Failure(f'{kind}: transformation or export of its result raised {type(e).__name__}: {str(e)[:120]}', cls)]
         runs = []
